@@ -54,7 +54,7 @@ EXTRA_FAULTS = [('errno', E.EINVAL), ('errno', E.EIO)]
 SELFTEST_MUTANT = 'skip-cleanup-on-body-exception'
 REQUIRED_PROBES = ['fault_pair_both_fired', 'second-party-creates-dest', 'second-party-creates-part',
                    'raw.write:short', 'raw.write:disk-full', 'fsync:EIO', 'raw.close:EIO', 'chmod:EPERM',
-                   'open:ENOSPC', 'rename:EACCES', 'link:EMLINK', 'cleanup-unlink:EIO']
+                   'open:ENOSPC', 'rename:EACCES', 'link:EMLINK', 'cleanup-unlink:EIO', 'second-party-removes-part']
 
 
 def setup(root):
